@@ -6,6 +6,14 @@ import (
 )
 
 func GenerateConditional(conditional profile.ConditionalRule, iriExpander *misc.IriExpander) []BranchRegoResult {
+	if conditional.Negated && conditional.ElseIsDefined() {
+		// ¬((if → then) ∧ (¬if → else)) <==> (if ∧ ¬then) ∨ (¬if ∧ ¬else)
+		negation := profile.NewOr(false, []profile.Rule{
+			profile.NewAnd(false, []profile.Rule{conditional.IfRule(), conditional.ThenRule().Negate()}),
+			profile.NewAnd(false, []profile.Rule{conditional.IfRule().Negate(), conditional.ElseRule().Negate()}),
+		})
+		return GenerateOr(negation, iriExpander)
+	}
 	thenMaterialImplication := conditional.ThenMaterialImplication()
 	var results = GenerateOr(thenMaterialImplication, iriExpander)
 	if conditional.ElseIsDefined() {
